@@ -1,0 +1,23 @@
+//go:build verif
+
+// Contracts for the verification machinery in /verif (comment-only; no declarations).
+// C10: the QUIC transport's own gating call sites: an inbound connection is returned by Accept only after the
+// gater allowed its address and its peer; an outbound connection is returned only after InterceptSecured.
+
+package libp2pquic
+
+//@ func (l *listener) Accept
+//@ prop C10
+//@ ensures result1 == nil && old(l.transport.gater) != nil ==> called(InterceptAccept, 0) && ret(InterceptAccept, 0, 0) &&
+//@         called(InterceptSecured, 0) && ret(InterceptSecured, 0, 0) &&
+//@         arg(InterceptAccept, 0, 1) == result0 && arg(InterceptSecured, 0, 3) == result0 &&
+//@         arg(InterceptSecured, 0, 1) == network.DirInbound
+//@ callsite InterceptSecured#0 requires arg2 == c.remotePeerID && arg3 == c
+//@ loop 0 invariant l.transport == old(l.transport) && l.transport.gater == old(l.transport.gater)
+//@ noframe
+
+//@ func (t *transport) dialWithScope
+//@ prop C10
+//@ ensures result1 == nil && t.gater != nil ==> called(InterceptSecured, 0) && ret(InterceptSecured, 0, 0) &&
+//@         arg(InterceptSecured, 0, 1) == network.DirOutbound && arg(InterceptSecured, 0, 2) == p && arg(InterceptSecured, 0, 3) == result0
+//@ noframe
